@@ -37,6 +37,9 @@ type Slice struct {
 	Off, Len, Cap int
 }
 
+// Bytes is a read-only []byte view of a string term (result of []byte(s)).
+type Bytes struct{ S *Term }
+
 type MapRef struct{ Obj int }
 type ChanRef struct{ Obj int }
 
@@ -280,4 +283,21 @@ func ValStr(v Value) string {
 		return "opaque:" + x.Kind
 	}
 	return fmt.Sprintf("%T", v)
+}
+
+func fieldIndexByName(t interface{ String() string }, name string) int {
+	tt, ok := t.(types.Type)
+	if !ok {
+		panic("fieldIndexByName: not a type")
+	}
+	if p, ok := tt.Underlying().(*types.Pointer); ok {
+		tt = p.Elem()
+	}
+	st := tt.Underlying().(*types.Struct)
+	for i := 0; i < st.NumFields(); i++ {
+		if st.Field(i).Name() == name {
+			return i
+		}
+	}
+	panic("no field " + name + " in " + tt.String())
 }
